@@ -12,13 +12,16 @@ Import ListNotations.
 Record trun := mkTR {
   tr_full : bool; tr_fail : option nat;
   tr_core : Z;                  (* observed input: length of core.Dataset's change feed before the run *)
+  tr_mid : option (nat * nat * list wver);  (* scripted write during the run: after sink call k, dataset, versions *)
   (* observed on the implementation *)
   tr_ok : bool;
   tr_emitted : list N;          (* ids handed to the sink, sorted, with repeats *)
   tr_calls : list nat;          (* size of every sink call *)
   tr_foreign : N;               (* emitted entities that do not carry the main dataset's marker *)
   tr_main : Z;                  (* persisted main token, -1 = no token *)
-  tr_deps : list (nat * Z)      (* persisted dependency tokens, sorted by dataset *)
+  tr_deps : list (nat * Z);     (* persisted dependency tokens, sorted by dataset *)
+  tr_middone : bool;            (* the scripted write was performed *)
+  tr_late : list N              (* ids handed to the sink after it, sorted *)
 }.
 
 Inductive top := TW (k : nat) (vs : list wver) | TRun (r : trun).
@@ -46,9 +49,23 @@ Definition natz_eqb (a b : nat * Z) : bool := Nat.eqb (fst a) (fst b) && Z.eqb (
 Definition tok_obs (j : option tokens) : Z * list (nat * Z) :=
   match j with None => ((-1)%Z, []) | Some t => (t_main t, t_deps t) end.
 
+(** the events after the (only) write of a run *)
+Fixpoint after_append (evs : list ev) : option (list ev) :=
+  match evs with
+  | [] => None
+  | EvAppend _ _ :: r => Some r
+  | _ :: r => after_append r
+  end.
+
 Definition run_agree (evs : list ev) (ok : bool) (job : option tokens) (r : trun) : bool :=
   let ents := ev_ents evs in
-  Bool.eqb ok (tr_ok r)
+  (match after_append evs with
+   | None => negb (tr_middone r)
+   | Some late => tr_middone r
+                  && (if ok then list_eqb N.eqb (sortN (concat (ev_ents late))) (tr_late r)
+                      else Nat.eqb (length (concat (ev_ents late))) (length (tr_late r)))
+   end)
+  && Bool.eqb ok (tr_ok r)
   && list_eqb Nat.eqb (map (@length N) ents) (tr_calls r)
   && (if ok then list_eqb N.eqb (sortN (concat ents)) (tr_emitted r)
       else Nat.eqb (length (concat ents)) (length (tr_emitted r)))
@@ -58,7 +75,10 @@ Definition run_agree (evs : list ev) (ok : bool) (job : option tokens) (r : trun
 Definition op_of (c : tcase) (o : top) : op :=
   match o with
   | TW k vs => OAppend k vs
-  | TRun r => ORun (tr_full r) (tc_batch c) (tr_fail r) (tr_core r)
+  | TRun r => match tr_mid r with
+              | None => ORun (tr_full r) (tc_batch c) (tr_fail r) (tr_core r)
+              | Some (k, ds, vs) => ORunMid (tc_batch c) (tr_fail r) (tr_core r) k ds vs
+              end
   end.
 
 Fixpoint agree_ops (v : variant) (c : tcase) (s : state) (ops : list top) : bool :=
@@ -118,7 +138,28 @@ Definition tokens_in_range (c : cfg) (h : hub) (main : Z) (deps : list (nat * Z)
   Z.leb 0 main && Z.leb main (lenz (feed_of h (c_main c)))
   && forallb (fun kz : nat * Z => Z.leb 0 (snd kz) && Z.leb (snd kz) (lenz (feed_of h (fst kz)))) deps.
 
-Definition run_spec_ok (c : cfg) (h : hub) (before : option tokens) (r : trun) : bool :=
+(** the hub after a run (a run only changes it through its scripted write) *)
+Definition run_hub (h : hub) (r : trun) : hub :=
+  match tr_mid r with
+  | Some (_, ds, vs) => if tr_middone r then append_hub h ds vs else h
+  | None => h
+  end.
+
+(** changes written DURING a full sync that its watermark jumped over: what they affect must have been
+    delivered after they were written *)
+Definition mid_covered (c : cfg) (h0 h1 : hub) (r : trun) : bool :=
+  match tr_mid r with
+  | Some (_, ds, _) =>
+    negb (tr_middone r) ||
+    forallb (fun dp => negb (Nat.eqb (d_ds dp) ds) ||
+                       forallb (fun xt : ver * feed => subsetN (now_targets c h1 dp (v_id (fst xt))) (tr_late r))
+                               (range_tails (feed_of h1 ds) 0 (lenz (feed_of h0 ds)) (tok_get (tr_deps r) ds)))
+            (c_deps c)
+  | None => true
+  end.
+
+Definition run_spec_ok (c : cfg) (h0 : hub) (before : option tokens) (r : trun) : bool :=
+  let h := run_hub h0 r in
   (* C18_main_only *)
   N.eqb (tr_foreign r) 0
   && subsetN (tr_emitted r) (map v_id (feed_of h (c_main c)))
@@ -134,6 +175,7 @@ Definition run_spec_ok (c : cfg) (h : hub) (before : option tokens) (r : trun) :
            (* full sync: once its token is stored, every live main entity was delivered *)
            if tr_ok r
            then subsetN (filter (main_live h (c_main c)) (map v_id (feed_of h (c_main c)))) (tr_emitted r)
+                && mid_covered c h0 h r
            else true
          end).
 
@@ -144,7 +186,7 @@ Fixpoint spec_ops (c : tcase) (h : hub) (before : option tokens) (ops : list top
   match ops with
   | [] => true
   | TW k vs :: ops' => spec_ops c (append_hub h k vs) before ops'
-  | TRun r :: ops' => run_spec_ok (cfg_of c) h before r && spec_ops c h (obs_tokens r) ops'
+  | TRun r :: ops' => run_spec_ok (cfg_of c) h before r && spec_ops c (run_hub h r) (obs_tokens r) ops'
   end.
 
 Definition spec_ok (c : tcase) : bool :=
@@ -180,7 +222,7 @@ Fixpoint spec_main_ops (c : tcase) (h : hub) (ops : list top) : bool :=
   match ops with
   | [] => true
   | TW k vs :: ops' => spec_main_ops c (append_hub h k vs) ops'
-  | TRun r :: ops' => (negb (tr_ok r) || subsetN (tr_emitted r) (map v_id (feed_of h (tc_main c))))
-                      && spec_main_ops c h ops'
+  | TRun r :: ops' => (negb (tr_ok r) || subsetN (tr_emitted r) (map v_id (feed_of (run_hub h r) (tc_main c))))
+                      && spec_main_ops c (run_hub h r) ops'
   end.
 Definition spec_main_only (c : tcase) : bool := spec_main_ops c (s_hub (init_state (tc_n c))) (tc_ops c).
